@@ -4,6 +4,7 @@ import SmppVerif.Model.Wire
 import SmppVerif.Model.Keeper
 import SmppVerif.Model.Supervisor
 import SmppVerif.Model.Receiver
+import SmppVerif.Model.ReceiveLoop
 import SmppVerif.Model.Sender
 import SmppVerif.Model.SenderLoop
 import SmppVerif.Model.Discipline
@@ -83,6 +84,16 @@ def step (ws : List String) : Option String :=
         | .failed ps e => "failed " ++ (if ps.isEmpty then "-" else ";".intercalate (ps.map showHex)) ++ " " ++ e.name
             ++ (if Sender.survives (.failed ps e) then " continues" else " ends")))
     | _, _, _, _, _, _ => some "bad-op"
+  | ["rxs", dflt, hex] =>
+    -- the whole inbound stream: one action per PDU read
+    match DriverPdu.parseEnc dflt, parseHex hex with
+    | some d, some b =>
+      -- what can be seen from outside: the responses written, and whether the loop was left
+      some ("ok " ++ " / ".intercalate ((ReceiveLoop.receiveLoop d (b.length + 1) b).filterMap fun a => match a with
+        | .respond c st sq => some s!"respond {c} {st} {sq}"
+        | .ignore => none
+        | .escape _ => some "escape"))
+    | _, _ => some "bad-op"
   | ["rx", dflt, hex] =>
     match DriverPdu.parseEnc dflt, parseHex hex with
     | some d, some b =>
